@@ -28,24 +28,23 @@ VIEW View
     open(name, "w").write(s)
 out = sys.argv[1] if len(sys.argv) > 1 else "."
 import os; os.chdir(out)
-# exhaustive, repaired code
+# exhaustive, repaired code: quick
 cfg("SeriesCache_mc.cfg", 2, 2, 2, "AllRanges", MaxInv=1, MaxTrim=0, MaxFail=0)
-cfg("SeriesCache_mc2_big.cfg", 2, 2, 2, "AllRanges", MaxInv=1, MaxTrim=1, MaxFail=1)
 cfg("SeriesCache_mc1.cfg", 1, 2, 2, "AllRanges", MaxInv=1, MaxTrim=1, MaxFail=1)
 cfg("SeriesCache_mcp.cfg", 1, 1, 2, "AllRanges", Plays="PlayMix", Forces="ForceMix", MaxInv=1, MaxTrim=0, MaxFail=0)
-cfg("SeriesCache_mc1_big.cfg", 1, 2, 2, "AllRanges", Plays="PlayMix", Forces="ForceMix", MaxInv=2, MaxTrim=1, MaxFail=1)
+cfg("SeriesCache_live.cfg", 2, 1, 2, "AllRanges", MaxInv=1, MaxTrim=0, MaxFail=1, spec="FairSpec", props="AllReturn", inv="TypeOK")
+# thorough
+cfg("SeriesCache_mc2_big.cfg", 2, 2, 2, "AllRanges", MaxInv=1, MaxTrim=1, MaxFail=1)
 cfg("SeriesCache_mc1g3_big.cfg", 1, 2, 3, "AllRanges", MaxInv=1, MaxTrim=1, MaxFail=1)
-cfg("SeriesCache_mc_big.cfg", 2, 2, 3, "WholeChunkRanges", MaxInv=1, MaxTrim=1, MaxFail=1)
-cfg("SeriesCache_mc_gap_big.cfg", 3, 1, 3, "AllRanges", MaxInv=1, MaxTrim=0, MaxFail=0)
+cfg("SeriesCache_mc_big.cfg", 2, 2, 3, "WholeChunkRanges", MaxInv=1, MaxTrim=0, MaxFail=0)
+cfg("SeriesCache_mc_gap_big.cfg", 3, 1, 3, "GapRanges", MaxInv=1, MaxTrim=0, MaxFail=0)
 cfg("SeriesCache_mc_inv2_big.cfg", 1, 2, 3, "AllRanges", MaxInv=2, MaxTrim=0, MaxFail=0)
-cfg("SeriesCache_mc_play_big.cfg", 1, 2, 3, "AllRanges", Plays="PlayMix", Forces="ForceMix", MaxInv=1, MaxTrim=0, MaxFail=0)
-cfg("SeriesCache_mc_open_big.cfg", 2, 1, 3, "AllRanges", MaxInv=1, MaxTrim=0, MaxFail=1, Age="LastOpen")
-cfg("SeriesCache_mc_linger_big.cfg", 2, 1, 3, "AllRanges", MaxInv=1, MaxTrim=0, MaxFail=1, Age="LastLinger")
-cfg("SeriesCache_live.cfg", 2, 1, 2, "AllRanges", MaxInv=1, MaxTrim=1, MaxFail=1, spec="FairSpec", props="AllReturn", inv="TypeOK")
-cfg("SeriesCache_live_big.cfg", 2, 2, 3, "WholeChunkRanges", MaxInv=1, MaxTrim=1, MaxFail=1, spec="FairSpec", props="AllReturn", inv="TypeOK")
+cfg("SeriesCache_mc_play_big.cfg", 1, 2, 2, "AllRanges", Plays="PlayMix", Forces="ForceMix", MaxInv=2, MaxTrim=0, MaxFail=1)
+cfg("SeriesCache_mc_open_big.cfg", 2, 1, 2, "AllRanges", MaxInv=1, MaxTrim=1, MaxFail=1, Age="LastOpen")
+cfg("SeriesCache_mc_linger_big.cfg", 2, 1, 2, "AllRanges", MaxInv=1, MaxTrim=1, MaxFail=1, Age="LastLinger")
+cfg("SeriesCache_live_big.cfg", 2, 1, 2, "AllRanges", MaxInv=1, MaxTrim=1, MaxFail=1, spec="FairSpec", props="AllReturn", inv="TypeOK")
 # the code before its repair: must fail (and export the schedule)
 cfg("SeriesCache_orig_await.cfg", 1, 2, 2, "AllRanges", MaxInv=1, FixAwait="FALSE", FixPublish="FALSE", inv="CexExport")
-cfg("SeriesCache_orig_publish.cfg", 3, 1, 3, "AllRanges", MaxInv=1, FixAwait="FALSE", FixPublish="FALSE", inv="CexExport")
 cfg("SeriesCache_half_await.cfg", 1, 2, 3, "AllRanges", MaxInv=1, FixAwait="TRUE", FixPublish="FALSE", inv="CexExport")
 cfg("SeriesCache_overlap_inv.cfg", 1, 2, 2, "AllRanges", MaxInv=2, SeqInv="FALSE", inv="CexExport")
 # behaviours for the schedule driver (simulation)
